@@ -7,6 +7,14 @@ props = [json.loads(l) for l in open(os.path.join(ROOT, 'properties.jsonl'))]
 checks = []; na = []
 for p in props:
     c = claims['claimed'].get(p['id'])
+    b = claims.get('bounded', {}).get(p['id'])
+    if b and not c:
+        checks.append({
+            'property_id': p['id'], 'quick_cmd': './check %s --tier quick' % p['id'], 'thorough_cmd': './check %s --tier thorough' % p['id'],
+            'evidence_file': 'evidence/%s.json' % p['id'], 'replay_cmd_template': '/venv/bin/python replay/run.py %s {path}' % p['id'], 'engine': 'pyvc',
+            'level_claimed': {'category': b['category'], 'text': b['text'], 'design_ref': 'DESIGN.md section 4, ' + p['id']},
+            'level_note': b['note'], 'technique': b['technique']})
+        continue
     if c:
         checks.append({
             'property_id': p['id'],
